@@ -24,6 +24,7 @@ import (
 	"time"
 
 	"github.com/tucats/ego/internal/builtins"
+	"github.com/tucats/ego/internal/cli/settings"
 	"github.com/tucats/ego/internal/defs"
 	"github.com/tucats/ego/internal/language/bytecode"
 	"github.com/tucats/ego/internal/language/symbols"
@@ -39,6 +40,9 @@ type c08Prog struct {
 	Units  []string `json:"units"`
 	Escape bool     `json:"escape"` // a closure value reaches another goroutine other than as the go target
 	Gor    int      `json:"goroutines"`
+	Deep   bool     `json:"deep"` // runs with ego.runtime.deep.scope=true (the default of the ego CLI and server)
+	// RaceOnly: a larger instance of a shape that is also traced in a small instance; skipped by the trace pass
+	RaceOnly bool `json:"race_only"`
 }
 
 // Hooks installed by part 2 (nil when the tree has no verif hook).
@@ -60,7 +64,18 @@ var c08AutoImport sync.Once
 // c08Run compiles and runs one program exactly the way `ego run file.ego` sets it up
 // (commands.initializeSymbols + runSession.run): a shared, global-singleton main table
 // under the root table, builtins, all packages auto-imported.
-func c08Run(src string, pre func()) (out string, err error) {
+//
+// The scope mode is the program's: settings are only written between programs, when every
+// goroutine of the previous program has passed its last pushScope (each worker's final
+// statement is wg.Done()/a channel send that main waits for), so the write is ordered after
+// the interpreter's reads of the setting.
+func c08Run(p *c08Prog, pre func()) (out string, err error) {
+	src := p.Src
+
+	if settings.GetBool(defs.RuntimeDeepScopeSetting) != p.Deep {
+		settings.SetDefault(defs.RuntimeDeepScopeSetting, fmt.Sprint(p.Deep))
+	}
+
 	s := symbols.NewSymbolTable("file verif.ego").Shared(true)
 	s.SetGlobalSingleton()
 	s.SetAlways(defs.TypeCheckingVariable, defs.NoTypeEnforcement)
@@ -187,14 +202,14 @@ func TestVerifC08Race(t *testing.T) {
 						defer c08SetYield(0, 0)
 					}
 
-					out, err := c08Run(p.Src, nil)
+					out, err := c08Run(p, nil)
 					stats.Inc("race_runs")
 
 					if err != nil || out != p.Want {
 						cls := c08MismatchClass(p)
 
 						fails.Write(verifh.Failure{Class: cls,
-							What:  fmt.Sprintf("program %s GOMAXPROCS=%d salt=%d: error or wrong output", p.ID, procs, salt),
+							What:  fmt.Sprintf("program %s deep.scope=%v GOMAXPROCS=%d salt=%d: error or wrong output", p.ID, p.Deep, procs, salt),
 							Input: p.Src, Got: fmt.Sprintf("%q err=%v", out, err), Want: fmt.Sprintf("%q", p.Want)})
 					}
 				})
